@@ -51,8 +51,11 @@ def parser_stubs(current_year=None, local_tznames=("LCL", "LCD")):
         UTC = realtz.UTC
         tzutc = realtz.tzutc
         tzlocal = realtz.tzlocal
-        tzstr = realtz.tzstr
         enfold = staticmethod(realtz.enfold)
+
+        @staticmethod
+        def tzstr(s_, posix_offset=False):
+            return realtz.tzstr.instance(s_, posix_offset)
 
         @staticmethod
         def tzoffset(name, offset):
@@ -74,6 +77,20 @@ def parser_stubs(current_year=None, local_tznames=("LCL", "LCD")):
             yield
     finally:
         P._timelex.split = real_split
+
+
+@contextlib.contextmanager
+def native_env(local_tznames=("LCL", "LCD")):
+    """For the native replay: the same assumption about the process's local zone names as under the tracer."""
+    import time as realtime
+
+    class _TS(object):
+        tzname = local_tznames
+        localtime = staticmethod(realtime.localtime)
+        timezone, altzone, daylight = 0, 0, 0
+    import dateutil.parser._parser  # noqa
+    with stubs.rebind("dateutil.parser._parser", time=_TS):
+        yield
 
 
 def prep():
